@@ -225,6 +225,69 @@ def _mk_find_intersection(which):
     return body
 
 
+def ob_wall_output(env):
+    """Equilibrium.__init__ closes the wall (first point repeated at the end, order kept, both coordinates in their columns) and writeGridfile writes
+    closed_wall_R / closed_wall_Z from the R / Z columns; the scalars of the file header are the mesh's and equilibrium's own values"""
+    import inspect
+    import textwrap
+    import hypnotoad.core.mesh as meshm
+    sym = env.mode == "sym"
+    nv = 4
+    wall = [Point2D(env.real("wR%d" % k, lo=0, hi=9), env.real("wZ%d" % k, lo=-9, hi=9)) for k in range(nv)]
+    given = list(wall)
+    eq = eqm.Equilibrium.__new__(eqm.Equilibrium)
+    eq.user_options = types.SimpleNamespace(xpoint_poloidal_spacing_length=1.0, target_all_poloidal_spacing_length=None)
+    eq.wall = wall
+
+    class Factory:
+        def add(self, **kw):
+            return self
+
+        def create(self, settings):
+            return "nonorthogonal options"
+
+    eq.nonorthogonal_options_factory = Factory()
+    with patched((eqm, "numpy", PROXY if sym else numpy)):
+        eqm.Equilibrium.__init__(eq, {})
+    env.witness("closed_wall_built")
+    cw = eq.closed_wallarray
+    env.claim("wall_list_itself_not_modified", eq.wall == given and len(eq.wall) == nv)
+    env.claim("closed_wall_has_one_more_point", cw.shape == (nv + 1, 2))
+    for k in range(nv + 1):
+        env.claim_eq("closed_wall_R_column_is_the_wall_in_order_then_the_first_point", cw[k, 0], given[k % nv].R)
+        env.claim_eq("closed_wall_Z_column_is_the_wall_in_order_then_the_first_point", cw[k, 1], given[k % nv].Z)
+    # header of the grid file
+    src = textwrap.dedent(inspect.getsource(meshm.BoutMesh.writeGridfile))
+    f0 = ast.parse(src).body[0]
+    body = [n for n in f0.body if isinstance(n, ast.With)][0].body
+    i0 = next(i for i, n in enumerate(body) if isinstance(n, ast.Expr) and "f.write('nx'" in ast.unparse(n))
+    i1 = next(i for i, n in enumerate(body) if isinstance(n, ast.For) and "fields_to_output" in ast.unparse(n.iter))
+    f2 = ast.FunctionDef(name="header", args=ast.arguments(posonlyargs=[], args=[ast.arg("self"), ast.arg("f")], kwonlyargs=[], kw_defaults=[], defaults=[]),
+                         body=body[i0:i1], decorator_list=[], returns=None, type_comment=None, type_params=[])
+    m = ast.Module(body=[f2], type_ignores=[])
+    ast.fix_missing_locations(m)
+    ns = dict(meshm.__dict__)
+    exec(compile(m, "<writeGridfile header>", "exec"), ns)
+    written = {}
+    fobj = types.SimpleNamespace(write=lambda name, value: written.__setitem__(name, value))
+    vals = {k: env.real(k) for k in ("Bt_axis", "psi_axis", "psi_bdry", "psi_axis_gfile", "psi_bdry_gfile")}
+    eq2 = types.SimpleNamespace(closed_wallarray=cw, **vals)
+    nx, nyng, g = env.int("nx", lo=1), env.int("ny_noguards", lo=1), env.int("y_boundary_guards", lo=0)
+    me = types.SimpleNamespace(nx=nx, ny=nyng + 2 * g, ny_noguards=nyng, equilibrium=eq2,
+                               user_options=types.SimpleNamespace(y_boundary_guards=g, curvature_type="curl(b/B)"))
+    ns["header"](me, fobj)
+    env.claim("header:nx_ny_guards", written.get("nx") is nx and written.get("ny") is nyng and written.get("y_boundary_guards") is g)
+    env.claim("header:ny_written_excludes_guard_cells", written.get("ny") is me.ny_noguards)
+    for k, v in vals.items():
+        env.claim("header:%s_is_the_equilibrium's" % k, written.get(k) is v)
+    wr, wz = written.get("closed_wall_R"), written.get("closed_wall_Z")
+    env.claim("header:wall_variables_written", wr is not None and wz is not None and len(wr) == nv + 1 and len(wz) == nv + 1)
+    if wr is not None and wz is not None:
+        for k in range(nv + 1):
+            env.claim_eq("file:closed_wall_R=R_of_the_closed_input_wall", wr[k], given[k % nv].R)
+            env.claim_eq("file:closed_wall_Z=Z_of_the_closed_input_wall", wz[k], given[k % nv].Z)
+
+
 def _mk_penalty(which):
     return lambda env: ob_penalty(env, which)
 
@@ -341,6 +404,10 @@ OBLIGATIONS.append(Ob("wall_point_insertion_bookkeeping", ob_wallpoints, tier="q
                       desc="contour[startInd] / contour[endInd] are the wall points; original order kept; at most one original replaced per end; caches invalidated",
                       stubs=["_find_intersection -> admissible indices and wall points", "calc_distance -> arbitrary reals"], bounds="5-point contour, all index combinations, 3 proximity branches per end",
                       max_paths=20000))
+OBLIGATIONS.append(Ob("wall_output_and_file_header", ob_wall_output, tier="quick", family="wall output",
+                      encodes=["hypnotoad.core.equilibrium:Equilibrium.__init__", "hypnotoad.core.mesh:BoutMesh.writeGridfile"],
+                      desc="closed wall = input wall + first point (both columns, order kept); closed_wall_R/Z, nx, ny (without guards), y_boundary_guards, Bt_axis, psi_axis, psi_bdry written from their sources",
+                      stubs=["options factory -> placeholder", "DataFile.write -> recorder"], bounds="4 wall vertices, all values symbolic"))
 for _w in ("lower", "upper"):
     OBLIGATIONS.append(Ob("find_intersection_%s_wall" % _w, _mk_find_intersection(_w), tier="quick", family="_find_intersection",
                           encodes=["hypnotoad.core.mesh:_find_intersection"],
